@@ -480,6 +480,7 @@ class TheCheck(Check):
             return self.decide()
         self.explore()
         self.long_hold(impl_dir)
+        self.concurrent_callers()
         if self.tier == "thorough":
             self.stress()
         return self.decide()
@@ -594,8 +595,36 @@ class TheCheck(Check):
                     seen.add(key)
                     self.violation("property", key, j, {"stream": "long-hold", "ops": [line], "first_bad_op": line, "impl_line": raw})
 
+    def concurrent_callers(self):
+        """the formatted puts format BEFORE they take the container lock (the formatting macro is shared
+        by all containers): a hidden static buffer there makes a correctly locked put store another
+        thread's text. Real threads, private containers, self-checking (harness/mtpure.c)."""
+        from checks import mtpure
+        st = mtpure.stream(self)
+        try:
+            hbin = vlib.build_harness("mtpure", vlib.build_impl("asan"), "asan", (), lib="libq.a")
+        except vlib.BuildError as e:
+            self.violation("build", "build-failure", str(e)[:2000], {"error": str(e)[:4000]})
+            return
+        lines, rc, err = vlib.run_proc([hbin], "\n".join(st.ops) + "\n", timeout=600)
+        self.evals += len(st.ops)
+        self.cov["streams"][st.name] = {"ops": len(st.ops), "impl_rc": rc, "note": st.note}
+        j = mtpure.oracle(st.ops, lines)
+        if j is None and (rc != 0 or len(lines) < len(st.ops)):
+            i = min(len(lines), len(st.ops) - 1)
+            j = (i, "harness died (rc=%d) during `%s`: %s" % (rc, st.ops[i], vlib.sanitizer_summary(err)))
+        if j:
+            i, desc = j
+            self.violation("property", "concurrent-callers", desc, {"stream": st.name, "ops": [st.ops[i]], "first_bad_op": st.ops[i],
+                                                                    "impl_line": lines[i] if i < len(lines) else None,
+                                                                    "module": None, "harness": "mtpure", "lib": "libq.a"})
+
     # ---------------------------------------------------------------- oracle
     def judge(self, op, line):
+        if op.startswith("mt "):
+            from checks import mtpure
+            r = mtpure.oracle([op], [line])
+            return r[1] if r else None
         if op.startswith("hold "):
             return lc.judge_hold_c13(op, lc.parse_result(line))
         kind, init, opt, progs = parse_prog(op)
